@@ -1,6 +1,6 @@
 """run every stored seeded change against the check of its property and write seeded/RESULTS.md + seeded/results.json.
 Each change is applied in a scratch worktree of /repo; the checks run from private copies of /verif (own build directory, own
-replays), several in parallel.  Usage: run_all_seeds.py [--workers K] [--extra C09-h:C20,C12-f:C11] [ID ...]"""
+replays), several in parallel.  Usage: run_all_seeds.py [--workers K] [--extra C09-h:C20,C12-f:C11] [ID | ID-name ...]"""
 import argparse
 import json
 import queue
@@ -74,7 +74,7 @@ def run_one(k, name, pid):
 
 jobs = queue.Queue()
 for d in sorted((VERIF / "seeded").iterdir()):
-    if d.is_dir() and (not only or d.name.split("-")[0] in only):
+    if d.is_dir() and (not only or d.name.split("-")[0] in only or d.name in only):
         jobs.put((d.name, d.name.split("-")[0]))
         if d.name in extra:
             jobs.put((d.name + "@" + extra[d.name], extra[d.name]))
